@@ -89,6 +89,7 @@ def run(pid, tier, seed, njobs=None):
            "rule": "probe = (program, schedule seed, freeze point j, read operation); writers frozen after j scheduled steps; non-trivial = "
                    "at the freeze point some bin mutex or tree lock word is held",
            "samples": [projected[0]["ev"][0]] if projected else [], "rejected": len(v["rejected"])}
+    lib.add_spec_coverage(cov, pid, tier)
     rc = verdict.finish()
     lib.write_evidence(pid, tier, seed, "model_checking", cov, time.time() - t0, len(verdict.violations),
                        ["every lock acquisition, park and spin-wait of the crate is announced by a hook", "TLC / SANY"])
